@@ -347,7 +347,9 @@ def check_dimension(dim, attrs, trace=False):
         attrs["dimension"] = AssumedRank()
         attrs["assumed-rank"] = True
     else:
-        attrs["dimension"] = ExprParser(dim, trace=trace).dimension_shape()
+        parser = ExprParser(dim, trace=trace)
+        attrs["dimension"] = parser.dimension_shape()
+        parser.mustbe("EOF")
 
 ######################################################################
 
